@@ -428,7 +428,8 @@ class MatrixProduct:
         # assert self.qnidx == other.qnidx
         new_mps.move_qnidx(other.qnidx)
         new_mps.to_right = other.to_right
-        new_mps.qn = [np.concatenate([qn1, qn2]) for qn1, qn2 in zip(self.qn, other.qn)]
+        # `new_mps.qn` (copied from `self`) has been moved to the quantum number center of `other`
+        new_mps.qn = [np.concatenate([qn1, qn2]) for qn1, qn2 in zip(new_mps.qn, other.qn)]
         # qn at the boundary should have dimension 1
         new_mps.qn[0] = np.zeros((1, new_mps.qn[0].shape[1]), dtype=int)
         new_mps.qn[-1] = np.zeros((1, new_mps.qn[0].shape[1]), dtype=int)
